@@ -6,7 +6,7 @@ From BWPlanner Require Import Terms Rows Clause Store Fetch Plan PatternSpec Row
 
 (* ---------- the supported fragment, clause by clause (Domain.d3_clause), as a record of facts *)
 Record d3c (c : clause) : Prop := {
-  d_spec3 : specificity3 c = false;
+  d_spec3 : specificity3 c = false \/ has_alias c = true;
   d_nb : no_bounds c = true;
   d_onb : cOLoA c = [] /\ cOUpA c = [];
   d_oid : cOIdA c = [];
@@ -29,7 +29,7 @@ Proof.
   apply andb_prop in H. destruct H as [H Holo].
   apply andb_prop in H. destruct H as [H3 Hnb].
   constructor.
-  - apply negb_true_iff. assumption.
+  - apply orb_prop in H3. destruct H3 as [X|X]; [left; apply negb_true_iff; exact X|right; exact X].
   - assumption.
   - split; apply is_empty_true; assumption.
   - apply is_empty_true. assumption.
